@@ -2,6 +2,7 @@
 // and prints one canonical trace line per op, in the same syntax as the extracted Coq model's
 // driver. Also provides helper subcommands used by the generators.
 mod codec;
+mod http;
 mod replay;
 mod sched;
 
@@ -38,6 +39,15 @@ fn main() {
         "zenc" => codec::zenc(&args[2..]),
         "inflate" => codec::inflate_real(&args[2..]),
         "matches" => codec::matches(&args[2..]),
+        "jsoncheck" => {
+            // what serde makes of a patch-check response body (debugging aid for the C06 body table)
+            let b = std::fs::read(&args[2]).expect("file");
+            match serde_json::from_slice::<updater::verif::PatchCheckResponse>(&b) {
+                Ok(r) => println!("ok {:?}", r),
+                Err(e) => println!("err {}", e),
+            }
+            0
+        }
         "sched" => sched::main(&args[2..]),
         other => {
             eprintln!("unknown subcommand {other}");
